@@ -4,7 +4,7 @@ Run as a separate process (`python -m harness.props.c19_worker`, scenarios as a 
 list on stdout) because vloop patches `time.time` globally.
 
 Scenario (JSON):
-  {'port': {'enabled': b, 'writable': b, 'expr': b},
+  {'port': {'enabled': b, 'writable': b, 'expr': b, 'initial': value the read-back port shows before the first write | null},
    'seq':  {'values': [...], 'delays': [...], 'repeat': r},            first request, sent at virtual time 0
    'cmd':  {'kind': 'none'|'seq'|'expr'|'noexpr'|'disable', 'at': ms, 'pos': k, 'values':…, 'delays':…, 'repeat':…},
    'horizon': ms}
@@ -53,6 +53,7 @@ class Impl:
         from qtoggleserver import persist  # noqa: F401
         from qtoggleserver.core import expressions  # noqa: F401  (import order, as in the repo's conftest)
         from qtoggleserver.core import api as core_api
+        from qtoggleserver.core import main as core_main
         from qtoggleserver.core import ports as core_ports
         from qtoggleserver.core import sequences as core_sequences
         from qtoggleserver.core.api.funcs import ports as api_ports
@@ -62,21 +63,27 @@ class Impl:
             MockAPIRequest = None
         self.core_api, self.core_ports, self.api_ports = core_api, core_ports, api_ports
         self.core_sequences = core_sequences
+        self.core_main = core_main
         self.MockAPIRequest = MockAPIRequest
         self.counter = 0
 
         class RecPort(core_ports.Port):
             TYPE = core_ports.TYPE_NUMBER
 
-            def __init__(self, port_id):
+            # a read-back port (relay / GPIO output): reads what was written last; `initial` until the first write
+            def __init__(self, port_id, initial=None):
                 super().__init__(port_id)
                 self.writes = []
+                self.state = initial
 
             async def read_value(self):
-                raise core_ports.SkipRead()
+                if self.state is None:
+                    raise core_ports.SkipRead()
+                return self.state
 
             async def write_value(self, value):
                 self.writes.append([vloop.vtime_ms(), value])
+                self.state = value
 
         self.RecPort = RecPort
 
@@ -119,7 +126,8 @@ class Impl:
         self.counter += 1
         pid = 'c19p%d' % self.counter
         cls = type('RecPort%d' % self.counter, (self.RecPort,), {'WRITABLE': bool(sc['port']['writable'])})
-        port = (await core_ports.load([{'driver': cls, 'port_id': pid}]))[0]
+        self.core_main._update_lock = None      # an asyncio.Lock of the previous scenario's loop
+        port = (await core_ports.load([{'driver': cls, 'port_id': pid, 'initial': sc['port'].get('initial')}]))[0]
         log, notes = [], []
 
         def active():
@@ -157,6 +165,11 @@ class Impl:
         try:
             if sc['port']['enabled']:
                 await port.enable()
+                # one polling pass, so that the port shows its current value (core.main.update is also what the write loop
+                # calls after every confirmed write: each written value is read back before the next timed step)
+                await self.core_main.update()
+                if port.get_last_read_value() != sc['port'].get('initial'):
+                    notes.append('initial value not read back')
             if sc['port']['expr']:
                 await port.set_attr('expression', '7777')
                 if sc['port']['writable'] and port._expression is None:
